@@ -77,7 +77,8 @@ PROP_BOOST = {
             'update_labels': 3, 'update_capacities': 3},
     'C10': {'validate': 14, 'add_network_service': 14, 'connect_interface': 8, 'set_property': 8,
             'node_add_network_service': 5, 'svc_add_interface': 9},
-    'C11': {'collect_authz': 10, 'collect_log': 5, 'add_port_mirror_service': 10, 'add_facility': 5,
+    'C11': {'collect_authz': 10, 'collect_log': 5, 'add_port_mirror_service': 10, 'add_facility': 5, 'add_switch': 4,
+            'set_property': 8,
             'add_network_service': 12, 'roundtrip': 3, 'label_service_port': 6, 'validate': 4, 'add_component': 14},
     'C17': {'checkpoint': 3, 'diff_slivers': 22, 'diff_copy_edit': 14, 'edit_tracked': 14, 'respell_user_data': 6, 'set_property': 10, 'add_component': 12, 'remove_component': 6,
             'add_child_interface': 6, 'node_add_network_service': 8, 'node_remove_network_service': 4,
